@@ -16,6 +16,17 @@ pub(crate) fn raw_table(lg_size: u8, slots: &[u32]) -> PairTable {
     PairTable { lg_size, num_valid_bits: NVB, num_items: n, slots: slots.to_vec() }
 }
 
+/// table with an explicit key width (for sketches of another lg_k than 4)
+pub(crate) fn raw_table_nvb(lg_size: u8, num_valid_bits: u8, slots: &[u32]) -> PairTable {
+    let mut t = raw_table(lg_size, slots);
+    t.num_valid_bits = num_valid_bits;
+    t
+}
+
+pub(crate) fn lookup_of(t: &PairTable, item: u32) -> u32 {
+    t.lookup(item)
+}
+
 fn home(item: u32, lg_size: u8) -> usize {
     (item >> (NVB - lg_size)) as usize
 }
